@@ -15,6 +15,11 @@ import (
 // conns keeps track of the number of open ws connections
 var conns int64
 
+// tunnels is the number of ws handlers at work. The http servers do not
+// know of a connection any more once it is hijacked, Shutdown waits for
+// them with this counter.
+var tunnels int64
+
 type dialFunc func(network, address string) (net.Conn, error)
 
 // newWSHandler returns an HTTP handler which forwards data between
@@ -23,6 +28,9 @@ type dialFunc func(network, address string) (net.Conn, error)
 // between the client and server.
 func newWSHandler(host string, dial dialFunc, conn gkm.Gauge) http.Handler {
 	return http.HandlerFunc(func(w http.ResponseWriter, r *http.Request) {
+		atomic.AddInt64(&tunnels, 1)
+		defer atomic.AddInt64(&tunnels, -1)
+
 		if conn != nil {
 			conn.Set(float64(atomic.AddInt64(&conns, 1)))
 			defer func() {
